@@ -37,7 +37,7 @@ class Chain(PipeScenario):
     def make_producers(self):
         p = self.params
         n = p["n"]
-        self.add_producer("p", self.src, list(range(1, n + 1)), mode=p["mode"])
+        self.add_producer("p", self.src, list(range(0, n)), mode=p["mode"])
         if p.get("nprod", 1) == 2:
             self.add_producer("q", self.src, [101, 102][: max(1, n - 1)], mode="burst")
 
